@@ -3,7 +3,7 @@ import XrsVerif.Proofs.Trim
   C18 -- trim and crop return the minimal window, cells and coordinates intact.
 
   Model: `Model/Trim.lean` (hand model of `_trim`, `_crop`, `trim`, `crop` of xrspatial/zonal.py as
-  repaired by fixes/D5-… and fixes/D18a-…; tie = correspondence run, harness/corr_C18.py).
+  repaired by fixes/D5-… and fixes/D16-…; tie = correspondence run, harness/corr_C18.py).
   Rasters are functions `cell : Nat → Nat → Num` on `rows × cols`; `Num` has NaN, ±inf and exact
   rationals, and structural equality on `Num` is the NaN-aware equality.
 -/
@@ -158,7 +158,7 @@ theorem crop_minimal (zones values : Raster κ τ) (ids : List Num) (name : Stri
     simp only [crop, cropBounds, hb]
     exact ⟨this.1, this.2.1, this.2.2.1⟩
 
-/-! ### what the unrepaired kernels do where they differ (D5, D18a) -/
+/-! ### what the unrepaired kernels do where they differ (D5, D16) -/
 
 /-- D5: the `e == val` comparison agrees with the NaN-aware one only when NaN is not listed … -/
 theorem keptAsIs_partial (excludes : List Num) (v : Num) (h : Num.nan ∉ excludes) :
@@ -176,7 +176,7 @@ theorem keptAsIs_partial (excludes : List Num) (v : Num) (h : Num.nan ∉ exclud
 /-- … and with the default exclusion list `(nan,)` it keeps the NaN cells: nothing is trimmed -/
 example : keptAsIs [Num.nan] Num.nan = true ∧ kept [Num.nan] Num.nan = false := by decide
 
-/-- D18a: without the early return the kernels agree with the repaired ones whenever some cell is a hit … -/
+/-- D16: without the early return the kernels agree with the repaired ones whenever some cell is a hit … -/
 theorem boundsAsIs_partial (rows cols : Nat) (hit : Nat → Nat → Bool)
     (h : ∃ y x, y < rows ∧ x < cols ∧ hit y x = true) :
     boundsAsIs rows cols hit = bounds rows cols hit := by
